@@ -135,6 +135,15 @@ func DecodePack(key *crypto.Key, id ID, data []byte, wantPlain bool) (*PackConte
 	return pc, nil
 }
 
+// BlobReadable reports whether ciphertext decrypts (and decompresses if ulen != 0) to a plaintext with the given hex ID.
+func BlobReadable(key *crypto.Key, ct []byte, ulen uint, id ID) bool {
+	pt, err := open(key, ct)
+	if err == nil && ulen != 0 {
+		pt, err = zdec.DecodeAll(pt, nil)
+	}
+	return err == nil && Hash(pt) == id
+}
+
 // DecodeUnpacked decrypts (and decompresses) an index/snapshot/lock file.
 func DecodeUnpacked(key *crypto.Key, data []byte) ([]byte, error) {
 	pt, err := open(key, data)
